@@ -250,6 +250,18 @@ def c11_runs(tier, hb=0):
     return r
 
 
+def c19_runs(tier):
+    h = 'harness/popen.c'
+    cv = ['popen.child-reached-exec', 'popen.child-exits-at-once', 'popen.child-dies-from-signal',
+          'popen.escalated-to-sigkill', 'popen.child-exits-between-signals', 'popen.complete-run',
+          'env.fork-child-copy-explored']
+    r = [mt_run('type-r.epoll', h, cv, preempt=0, read=1), mt_run('type-w.epoll', h, cv, preempt=0, read=0),
+         mt_run('type-r.poll', h, cv, preempt=0, read=1, poll=1)]
+    if tier != 'quick':
+        r.append(mt_run('type-w.poll', h, cv, preempt=0, read=0, poll=1))
+    return r
+
+
 def c14_runs(tier):
     r = []
     sig = [x for x in c10_runs(tier, hb=1) if x['name'] in ('two-threads', 'one-thread.I2')]
@@ -396,6 +408,17 @@ CHECKS = {
                                 'bound 1-2, interests in one thread', 'thorough': '4-5 state changes, bound 2'},
             'outside': 'interests spread over several threads with registrations concurrent to reaping (the ghost '
                        'set cannot be kept in step with the library\'s locked tree from outside); pid reuse',
+            'assumptions': ENV_ASSUMPTIONS},
+    'C19': {'runs': c19_runs,
+            'explanation': 'C19: fork() duplicates the symbolic world: the child copy runs iv_popen_child up to the '
+                           'execvp model where its descriptor table is checked (pipe end on stdout/stdin, /dev/null on '
+                           'the other streams, nothing leaked); the parent copy continues with a forked plan for the '
+                           'child (exits at once / on the k-th SIGTERM / only on SIGKILL / by itself at +7 s) and for '
+                           'the moment of iv_popen_request_close (at once, +2 s, +40 s); virtual time is advanced '
+                           'through the 5 s steps; oracles on the kill() sequence, reaping, loop return and release.',
+            'bounds': {'quick': '1 request, 8 child plans x 3 close moments, types r and w, epoll and poll methods',
+                       'thorough': 'same, all four combinations'},
+            'outside': 'several concurrent requests; pid reuse; a real exec',
             'assumptions': ENV_ASSUMPTIONS},
     'C14': {'runs': c14_runs,
             'explanation': 'C14: happens-before (vector clock) race monitor over every load/store that library code '
